@@ -13,6 +13,7 @@ import ast
 import re
 
 from engine import cfront, crules, pyfacts
+from engine.poly import Poly
 from engine.cfront import estr, estr_top, ewalk, swalk
 from engine.pyfacts import src
 
@@ -174,23 +175,59 @@ def r1(R, tus):
     res = bp.params[-1].name
     seeds = {}
     bpdefs = cfront.scalar_defs(bp)  # row = &res[i * NPROPERTY]; row[F] = ..  reads as res[i * NPROPERTY + F] = ..
+    seed_e = {}
     for st in swalk(bp.body):
         if st.k == "expr" and st.e.k == "asg" and st.e.op == "=" and st.e.a[0].k == "idx":
-            lhs = cfront.esubst(st.e.a[0], bpdefs)
-            if lhs.k != "idx" or estr(lhs.a[0]) != res:
-                continue
-            names = [x.name for x in ewalk(lhs.a[1]) if x.k == "int" and x.name and x.name != "NPROPERTY"]
-            if names:
-                seeds[names[0]] = estr(st.e.a[1])
+            # a = b = c = v : every target of the chain gets v
+            targets, val_ = [], st.e
+            while val_.k == "asg" and val_.op == "=":
+                targets.append(val_.a[0])
+                val_ = val_.a[1]
+            while val_.k == "cast":
+                val_ = val_.a[0] if not (val_.a[0].k == "asg") else val_.a[0]
+                if val_.k == "asg" and val_.op == "=":
+                    targets.append(val_.a[0])
+                    val_ = val_.a[1]
+            for tg in targets:
+                lhs = cfront.esubst(tg, bpdefs) if tg.k == "idx" else tg
+                if lhs.k != "idx" or estr(lhs.a[0]) != res:
+                    continue
+                names = [x.name for x in ewalk(lhs.a[1]) if x.k == "int" and x.name and x.name != "NPROPERTY"]
+                if names:
+                    seeds[names[0]] = estr(val_)
+                    seed_e[names[0]] = val_
     mins = sorted(F for F, v in a.items() if v[0] == "min")
     maxs = sorted(F for F, v in a.items() if v[0] == "max")
     ns, nf, om = bp.params[5].name, bp.params[6].name, bp.params[3].name
     want = {"bb_mn_f": ("(%s + 1)" % nf,), "bb_mn_s": ("(%s + 1)" % ns,), "bb_mx_f": ("-1", "-1.0"), "bb_mx_s": ("-1", "-1.0"), "bb_mx_o": (om,), "bb_mn_o": (om,)}
     R.check(sorted(seeds) == sorted(mins + maxs), "C12.R1", CP, bp.line, "blobproperties", "seeded fields %s == min/max fields %s" % (sorted(seeds), sorted(mins + maxs)),
             "a bounding-box field starts at 0 (not an identity for min/max) or a sum field is seeded")
+    # a running minimum starts at or above every coordinate it can meet (s < ns, f < nf), a running maximum below every coordinate
+    # (>= 0), the omega pair at the frame's omega.  Decided on the linear form of the seed.
+    dim = {"bb_mn_f": nf, "bb_mn_s": ns}
     for F, vals in want.items():
+        e_ = seed_e.get(F)
+        R.shape(e_ is not None, "C12.R1", CP, bp.name, "the seed of %s" % F)
+        pl = crules.lin(e_)
         got = seeds.get(F, "").replace("(double)", "").replace("(float)", "")
-        R.check(got in vals, "C12.R1", CP, bp.line, "blobproperties", "seed %s = %s" % (F, seeds.get(F)), "seed of %s is not beyond every possible pixel coordinate (expected %s)" % (F, vals[0]))
+        if F in dim:
+            d_ = (pl - Poly.atom(dim[F])) if pl is not None else None
+            R.shape(d_ is not None and (d_.is_const() or got in vals), "C12.R1", CP, bp.name, "the seed %s = %s as %s + constant" % (F, got, dim[F])) if not (
+                pl is not None and not d_.is_const() and all(a_ in (ns, nf) for a_ in pl.atoms())) else None
+            ok_ = d_ is not None and d_.is_const() and d_.const_value() >= 0
+            R.check(ok_, "C12.R1", CP, bp.line, "blobproperties", "seed %s = %s >= %s" % (F, got, dim[F]),
+                    "the running minimum of %s starts at %s, which is not above every coordinate it can meet (they go up to %s - 1): for an image "
+                    "with %s > %s a blob lying entirely beyond that value keeps the seed as its minimum" % (F, got, dim[F], dim[F], got))
+        elif F in ("bb_mx_f", "bb_mx_s"):
+            try:
+                fv = float(got.strip("()"))
+            except ValueError:
+                fv = None
+            ok_ = (pl is not None and pl.is_const() and pl.const_value() < 0) or (fv is not None and fv < 0)
+            R.shape(ok_ or (pl is not None and pl.is_const()) or fv is not None, "C12.R1", CP, bp.name, "the seed %s = %s as a constant" % (F, got))
+            R.check(ok_, "C12.R1", CP, bp.line, "blobproperties", "seed %s = %s < 0" % (F, got), "the running maximum of %s does not start below every coordinate" % F)
+        else:
+            R.check(got in vals, "C12.R1", CP, bp.line, "blobproperties", "seed %s = %s" % (F, got), "the omega bounds of a new blob are not the omega of its frame (expected %s)" % vals[0])
     zero = [lp for lp in swalk(bp.body) if lp.k == "for" and any(estr_top(e) .endswith("= 0.0") for s2 in swalk(lp.body) for e in cfront.stmt_exprs(s2))]
     R.check(bool(zero), "C12.R1", CP, bp.line, "blobproperties", "all NPROPERTY fields zeroed before accumulation", "results are accumulated into uninitialised output")
     # compute_moments reads
